@@ -1822,6 +1822,10 @@ impl TreeNodeRewriter for Simplifier<'_> {
                 right.as_ref(),
                 false,
                 false,
+            ) && inlists_have_no_null_element(
+                left.as_ref(),
+                right.as_ref(),
+                info,
             ) =>
             {
                 match (*left, *right) {
@@ -1862,6 +1866,10 @@ impl TreeNodeRewriter for Simplifier<'_> {
                 right.as_ref(),
                 false,
                 true,
+            ) && inlists_have_no_null_element(
+                left.as_ref(),
+                right.as_ref(),
+                info,
             ) =>
             {
                 match (*left, *right) {
@@ -1882,6 +1890,10 @@ impl TreeNodeRewriter for Simplifier<'_> {
                 right.as_ref(),
                 true,
                 false,
+            ) && inlists_have_no_null_element(
+                left.as_ref(),
+                right.as_ref(),
+                info,
             ) =>
             {
                 match (*left, *right) {
@@ -1902,6 +1914,10 @@ impl TreeNodeRewriter for Simplifier<'_> {
                 right.as_ref(),
                 true,
                 true,
+            ) && inlists_have_no_null_element(
+                left.as_ref(),
+                right.as_ref(),
+                info,
             ) =>
             {
                 match (*left, *right) {
@@ -2189,6 +2205,27 @@ fn are_inlist_and_eq_and_match_neg(
         }
         _ => false,
     }
+}
+
+/// Returns true if no element of the two IN lists can be NULL.
+///
+/// The intersection / difference rewrites treat the lists as sets of values.
+/// Under three-valued logic that is only valid when no list element is NULL:
+/// `a IN (1, NULL) AND a NOT IN (2, 3)` is `false` for `a = 2` while
+/// `a IN (1, NULL)` is NULL.
+fn inlists_have_no_null_element(
+    left: &Expr,
+    right: &Expr,
+    info: &SimplifyContext,
+) -> bool {
+    let no_null_element = |expr: &Expr| match expr {
+        Expr::InList(inlist) => inlist.list.iter().all(|e| match e {
+            Expr::Literal(value, _) => !value.is_null(),
+            e => matches!(info.nullable(e), Ok(false)),
+        }),
+        _ => false,
+    };
+    no_null_element(left) && no_null_element(right)
 }
 
 // TODO: We might not need this after defer pattern for Box is stabilized. https://github.com/rust-lang/rust/issues/87121
